@@ -384,7 +384,8 @@ def main(check, argv):
 			vs = [x for x in out.violations if x.klass == v["class"]]
 		if not vs:
 			unreproduced.append({"leg": rec["leg"], "seed": rec["seed"],
-				"class": v["class"], "why": "not reproduced in the parent process"})
+				"class": v["class"], "why": "not reproduced in the parent process",
+				"detail": v.get("detail", "")[:700]})
 			continue
 		# after minimisation the case may have turned into a known finding
 		if any(check.matches_known(vs[0].to_json(), small, k) for k in open_known) \
@@ -403,7 +404,8 @@ def main(check, argv):
 			reported.append((path, vs[0], len(occ)))
 		else:
 			unreproduced.append({"leg": rec["leg"], "seed": rec["seed"],
-				"class": v["class"], "why": why, "path": path})
+				"class": v["class"], "why": why, "path": path,
+				"detail": v.get("detail", "")[:700]})
 	for c in info["crashes"]:
 		case = check.gen_case(c["leg"], c["seed"], tier)
 		path = os.path.join(VERIF, "replays", "%s-%s-%d-crash.json" % (check.prop_id,
